@@ -630,6 +630,227 @@ def cross_gen(n: int) -> List[int]:
     return [x + 1 for x in gen_chain(n & 3)] + closures(n)[:2]
 '''
 
+
+# ---------------------------------------------------------------------------------------- control-flow family
+CF_ACT = {"none": None, "return": "return i * 100 + {tag}", "break": "break", "continue": "continue",
+          "raise": 'raise ValueError("v%d" % i)'}
+
+
+def cf_function(name: str, fin: bool, ta: str, xa: str, ea: str, fa: str, g: tuple[int, int, int, int]) -> str:
+    """while-loop around try/except/else[/finally]; each body optionally returns/breaks/continues/raises when i == guard."""
+    L = [f"def {name}(n: int, bad: int, log: List[str]) -> int:", "    i = 0", "    while i < n:", "        i += 1", "        try:",
+         '            log.append("t%d" % i)', "            if i == bad:", "                raise MyErr(i)"]
+
+    def act(a: str, tag: int, guard: int) -> None:
+        if CF_ACT[a] is not None:
+            L.append(f"            if i == {guard}:")
+            L.append("                " + CF_ACT[a].format(tag=tag))
+    act(ta, 1, g[0])
+    L += ["        except MyErr as e:", '            log.append("x%d" % e.code)']
+    act(xa, 2, g[1])
+    L += ["        else:", '            log.append("e")']
+    act(ea, 3, g[2])
+    if fin:
+        L += ["        finally:", '            log.append("f")']
+        act(fa, 4, g[3])
+    L += ['        log.append("a%d" % i)', "    else:", '        log.append("loop-else")', "    return -i"]
+    return "\n".join(L) + "\n"
+
+
+def control_flow_family(rng: vlib.Rng, quick: bool) -> tuple[str, list[str]]:
+    """All combinations mypyc implements: with a finally clause, break/continue are only allowed in the finally body."""
+    combos = []
+    for ta in ("none", "return", "raise"):
+        for xa in ("none", "return", "raise"):
+            for ea in ("none", "return", "raise"):
+                for fa in ("none", "return", "break", "continue", "raise"):
+                    combos.append((True, ta, xa, ea, fa))
+    for ta in ("none", "return", "break", "continue", "raise"):
+        for xa in ("none", "return", "break", "continue", "raise"):
+            for ea in ("none", "return", "break", "continue"):
+                combos.append((False, ta, xa, ea, "none"))
+    core = [c for c in combos if c[0] and c[4] in ("continue", "break", "return") and "return" in c[1:4]]
+    rest = [c for c in combos if c not in core]
+    rng.shuffle(rest)
+    rng.shuffle(core)
+    chosen = (core[:14] + rest[:16]) if quick else combos
+    src, names = [], []
+    for c in chosen:
+        fin, ta, xa, ea, fa = c
+        guards = [(1, 1, 1, 1)]
+        if not quick or rng.random() < 0.3:
+            guards.append((rng.choice((1, 2)), rng.choice((1, 2)), rng.choice((1, 2)), rng.choice((1, 2, 3))))
+        for gi, g in enumerate(guards):
+            nm = f"cf_{'fin' if fin else 'nofin'}_{ta}_{xa}_{ea}_{fa}" + ("" if gi == 0 else "_g" + "".join(map(str, g)))
+            if nm in names:
+                continue
+            names.append(nm)
+            src.append(cf_function(nm, fin, ta, xa, ea, fa, g))
+    return "\n".join(src), names
+
+
+CF_FIXED = """
+def with_loop(n: int, mode: int, log: List[str]) -> int:
+    for i in range(n):
+        try:
+            with Ctx(log, mode == 5):
+                log.append("w%d" % i)
+                if mode == 3 and i == 1:
+                    return 77
+                if mode >= 4 and i == 1:
+                    raise MyErr(i)
+                with Ctx(log, False):
+                    log.append("inner%d" % i)
+                    if mode == 6 and i == 0:
+                        return 66
+        except MyErr as e:
+            log.append("caught%d" % e.code)
+            if mode == 4:
+                continue
+        log.append("after%d" % i)
+    return -1
+
+def nested_try(n: int, log: List[str]) -> int:
+    r = 0
+    for i in range(4):
+        try:
+            try:
+                log.append("in%d" % i)
+                if i == n:
+                    return 10 + i
+                if i == n + 1:
+                    raise MyErr(i)
+            finally:
+                log.append("inner-fin")
+                if i == 1:
+                    continue
+            r += 1
+        except MyErr as e:
+            log.append("outer-x%d" % e.code)
+            try:
+                raise ValueError("again")
+            except ValueError as e2:
+                log.append(str(e2))
+            finally:
+                log.append("handler-fin")
+                if i == 3:
+                    break
+    return -r
+
+def finally_return_overrides(n: int, log: List[str]) -> int:
+    for i in range(3):
+        try:
+            if i == n:
+                return 1
+            if i == n + 1:
+                raise MyErr(i)
+            log.append("body%d" % i)
+        finally:
+            log.append("fin%d" % i)
+            if i == 2:
+                return 2
+    return 3
+
+def gen_fin(n: int, stop: int, log: List[str]) -> Generator[int, None, None]:
+    for i in range(n):
+        try:
+            log.append("g%d" % i)
+            yield i
+            if i == stop:
+                return
+            try:
+                yield i + 100
+            finally:
+                log.append("gin%d" % i)
+        finally:
+            log.append("gf%d" % i)
+    log.append("gend")
+
+def use_gen_fin(n: int, stop: int, mode: int) -> List[object]:
+    log: List[str] = []
+    out: List[object] = []
+    g = gen_fin(n, stop, log)
+    if mode == 0:
+        out.extend(g)
+    elif mode == 1:
+        for x in g:
+            out.append(x)
+            if x == 100:
+                break
+        g.close()
+    else:
+        try:
+            out.append(next(g))
+            out.append(next(g))
+            out.append(g.throw(ValueError("boom")))
+        except (ValueError, StopIteration) as e:
+            out.append(type(e).__name__ + ":" + str(e))
+    out.append(list(log))
+    return out
+"""
+
+
+# ---------------------------------------------------------------------------------------- class-attribute-defaults family
+def defaults_family(rng: vlib.Rng, quick: bool) -> tuple[str, str, list[str], list[str]]:
+    """Chains of depth 2-4; every level independently has / has not class-level defaults (exhaustive), and randomly a
+    property, an __init__, a trait.  The chain is cut at a varying level: lower levels in module A, upper levels in module B (separate compilation crosses them).
+    Returns (source for A, source for B, names B must import from A, driver lines)."""
+    a_src = ["@trait", "class DTrait:", "    def tname(self) -> str:", "        return 'T' + self.tsuffix()",
+             "    def tsuffix(self) -> str:", "        return '?'", ""]
+    b_src: list[str] = []
+    imports = ["DTrait"]
+    drv: list[str] = []
+    chains = []
+    for depth in (2, 3, 4):
+        for mask in range(2 ** depth):
+            chains.append((depth, mask))
+    if quick:
+        must = [c for c in chains if c in ((3, 0b101), (4, 0b1001), (4, 0b0101), (4, 0b1101), (3, 0b100), (3, 0b001), (2, 0b10))]
+        rest = [c for c in chains if c not in must]
+        rng.shuffle(rest)
+        chains = must + rest[:5]
+    for ci, (depth, mask) in enumerate(chains):
+        prev = None
+        attrs: list[str] = []
+        for lv in range(depth):
+            name = f"D{depth}_{mask}_{lv}"
+            in_b = lv >= ci % (depth + 1)      # lower levels in module A, upper levels in module B
+            out = b_src if in_b else a_src
+            if not in_b:
+                imports.append(name)
+            has_def = bool(mask >> lv & 1)
+            has_prop = rng.random() < 0.35
+            has_init = rng.random() < 0.35
+            has_trait = lv == 0 and rng.random() < 0.4
+            bases = ([prev] if prev else []) + (["DTrait"] if has_trait else [])
+            out.append(f"class {name}" + (f"({', '.join(bases)})" if bases else "") + ":")
+            body = []
+            if has_def:
+                body += [f"    x{lv}: int = {lv * 10 + depth}", f"    s{lv}: str = 'd{lv}'", f"    retries{lv}: int = {2 ** 62 + lv}"]
+                attrs += [f"x{lv}", f"s{lv}", f"retries{lv}"]
+            if has_init:
+                body += ["    def __init__(self) -> None:"] + (["        super().__init__()"] if prev else []) + [f"        self.i{lv} = {lv} + 1000"]
+                attrs.append(f"i{lv}")
+            if has_prop:
+                data = [a for a in attrs if a[0] in 'xsri']      # data attributes only (a bound method's repr has an address)
+                tgt = data[0] if data else None
+                body += ["    @property", f"    def p{lv}(self) -> str:", f"        return 'p{lv}:' + " + (f"str(self.{tgt})" if tgt else "'-'")]
+                attrs.append(f"p{lv}")
+            if has_trait:
+                body += ["    def tsuffix(self) -> str:", f"        return '{name}'"]
+                attrs.append("tname")
+            body += [f"    def who{lv}(self) -> str:", f"        return '{name}'"]
+            out += body + [""]
+            # a compiled reader with the static type of this class
+            reads = " + ',' + ".join([f"str(o.{a}() if False else o.{a})" if a != "tname" else "o.tname()" for a in attrs] or ["'-'"])
+            out += [f"def read_{name}(o: {name}) -> str:", f"    return {reads}", ""]
+            mod = "B" if in_b else "M"
+            drv.append(f"call('defaults-fresh-instance', lambda: [(a, getattr({mod}.{name}(), a) if a != 'tname' else {mod}.{name}().tname()) for a in {attrs!r}])")
+            drv.append(f"call('defaults-compiled-reader', lambda: {mod}.read_{name}({mod}.{name}()))")
+            prev = name
+    return "\n".join(a_src) + "\n", "\n".join(b_src) + "\n", imports, drv
+
+
 PRELUDE = ("from typing import List, Dict, Optional, Union, Tuple, Iterator, Generator, Callable, Final\n"
            "from mypy_extensions import trait, i64, i32\n")
 
@@ -661,12 +882,15 @@ def hierarchy_source(hiers: list[tuple[int, list[dict]]]) -> tuple[str, list[str
     return "\n".join(lines) + "\n", calls
 
 
-def make_set(rng: vlib.Rng, idx: int, hiers, nfuncs: int, hist: dict[str, int]) -> dict:
+def make_set(rng: vlib.Rng, idx: int, hiers, nfuncs: int, hist: dict[str, int], quick: bool = True) -> dict:
     g = Gen(rng, hist)
     funcs = [g.function(f"f{idx}_{k}") for k in range(nfuncs)]
     hsrc, hcalls = hierarchy_source(hiers)
-    ma = PRELUDE + FEATURES_A + "\n" + hsrc + "\n" + "\n\n".join(f[1] for f in funcs) + "\n"
-    mb = PRELUDE + f"from ma{idx} import Shape, Square, Named, Person, MyErr, BIG, shapes, greet_all, mk_named, set_tag, with_ctx, gen_chain, closures\n" + FEATURES_B
+    cf_src, cf_names = control_flow_family(rng, quick)
+    da_src, db_src, d_imports, d_drv = defaults_family(rng, quick)
+    ma = PRELUDE + FEATURES_A + "\n" + da_src + "\n" + hsrc + "\n" + "\n\n".join(f[1] for f in funcs) + "\n"
+    mb = (PRELUDE + f"from ma{idx} import Shape, Square, Named, Person, MyErr, Ctx, BIG, shapes, greet_all, mk_named, set_tag, with_ctx, gen_chain, closures\n"
+          + f"from ma{idx} import " + ", ".join(d_imports) + "\n" + FEATURES_B + CF_FIXED + "\n" + cf_src + "\n" + db_src)
     d = ["import sys, json", f"import ma{idx} as M, mb{idx} as B",
          "want = sys.argv[1]",
          "assert M.__file__.endswith(want) and B.__file__.endswith(want), (M.__file__, B.__file__, want)",
@@ -690,6 +914,28 @@ def make_set(rng: vlib.Rng, idx: int, hiers, nfuncs: int, hist: dict[str, int]) 
             ncalls += 1
     d += hcalls
     ncalls += len(hcalls)
+    d += d_drv
+    ncalls += len(d_drv)
+    d += [f"CF_NAMES = {cf_names!r}",
+          "for _nm in CF_NAMES:",
+          "    for _n in range(5):",
+          "        for _bad in (0, 1, 2):",
+          "            _log = []",
+          "            call('%s(%d,%d)' % (_nm, _n, _bad), lambda: getattr(B, _nm)(_n, _bad, _log)); print('   log', _log)",
+          "for _n in range(4):",
+          "    for _mode in range(7):",
+          "        _log = []",
+          "        call('with_loop(%d,%d)' % (_n, _mode), lambda: B.with_loop(_n, _mode, _log)); print('   log', _log)",
+          "for _n in range(-1, 5):",
+          "    _log = []",
+          "    call('nested_try(%d)' % _n, lambda: B.nested_try(_n, _log)); print('   log', _log)",
+          "    _log = []",
+          "    call('finally_return_overrides(%d)' % _n, lambda: B.finally_return_overrides(_n, _log)); print('   log', _log)",
+          "for _n in range(4):",
+          "    for _stop in range(-1, 3):",
+          "        for _mode in range(3):",
+          "            call('use_gen_fin(%d,%d,%d)' % (_n, _stop, _mode), lambda: B.use_gen_fin(_n, _stop, _mode))"]
+    ncalls += len(cf_names) * 15 + 28 + 12 + 48
     ivals = [rng.choice(INTS) for _ in range(6)] + [0, 1, 2, 3, 4, 5]
     for n in ivals:
         small = n if abs(n) < 50 else n % 7
@@ -865,7 +1111,7 @@ CONSTRUCTS = [
 def diff_signature(a: str, b: str) -> str:
     """First differing token pair (numbers abstracted) -- identifies WHAT differs, not on which input."""
     ta, tb = _TOK.findall(a), _TOK.findall(b)
-    canon = lambda t: "N" if re.fullmatch(r"-?\d+", t) and abs(int(t)) > 9 else t  # noqa
+    canon = lambda t: "N" if re.fullmatch(r"-?\d+", t) else t  # noqa
     for i in range(max(len(ta), len(tb))):
         x = ta[i] if i < len(ta) else "<end>"
         y = tb[i] if i < len(tb) else "<end>"
@@ -911,6 +1157,14 @@ def check_result(ctx: vlib.Ctx, what: str, key: str, res: dict, replay: dict) ->
         for i, (x, y) in enumerate(zip(la, lb)):
             if x != y:
                 k = classify(x, y)
+                if k is None and x.startswith("   "):
+                    # state of a passed-in object / log printed after a call: attribute it to that call
+                    j = i
+                    while j >= 0 and not (la[j].startswith("ok ") or la[j].startswith("exc")):
+                        j -= 1
+                    m = re.match(r"^(?:ok |exc) (\S+?)(\(.*?\))? ", la[j]) if j >= 0 else None
+                    if m and not re.fullmatch(r"f\d+_\d+", m.group(1)):
+                        k = f"diff:{m.group(1)}:effects:{diff_signature(x, y)}"
                 if k is None:
                     other = other or (i, x, y)
                 else:
@@ -953,7 +1207,7 @@ def _run_diff(ctx: vlib.Ctx, hiers: list, tmp: str) -> None:
     sets = []
     for i in range(nsets):
         hs = interesting[i * ctx.n(6, 12):(i + 1) * ctx.n(6, 12)]
-        sets.append(make_set(rng, i, hs, ctx.n(20, 80), hist))
+        sets.append(make_set(rng, i, hs, ctx.n(14, 80), hist, ctx.quick))
     jobs: list[tuple[str, Any, dict]] = []
     for s in sets:
         cfgs = CONFIGS if not ctx.quick else ([CONFIGS[1], CONFIGS[3]] if s["idx"] % 2 == 0 else [CONFIGS[0], CONFIGS[2]])
